@@ -140,6 +140,15 @@ impl<'a> CoverageChecker<'a> {
                 self.validate_match(computation, *scrut, arms)
             }
             | Computation::CoMatch(CoMatch { arms }) => self.validate_comatch(computation, arms),
+            // A binder is a match with one arm: its pattern must cover every value of its type.
+            | Computation::VAbs(Abs(binder, _))
+            | Computation::Fix(Fix(binder, _))
+            | Computation::Do(Bind { binder, .. })
+            | Computation::Let(Let { binder, .. })
+                if self.statics.copattern_matches.get(&computation).is_none() =>
+            {
+                self.validate_pattern_matrix(computation, std::iter::once(*binder), None, false)
+            }
             | _ => Vec::new(),
         };
         let binder_errors = self
